@@ -23,7 +23,9 @@ RULE = ('programs: corpus (calls, recursion, exceptions, generators, iterators, 
         'metric, span, capture, condition{true,false,failing,BaseException}, malformed{unparsable counts, nameless method span}, pairs; '
         'faults: each of the N seam calls of the rich configuration raises once, x {Exception, BaseException}; a case is non-trivial when '
         'the tracepoint actually fired (or the fault was actually reached); every run is made with the cyclic collector off and also compares which '
-        'frames of the program are still alive afterwards against the reference tracer')
+        'frames of the program are still alive afterwards against the reference tracer, and the process-wide settings an application can observe '
+        '(warnings filters and their version, state of the shared random generator, recursion limit, switch interval, gc thresholds, except/profile hooks, '
+        'std streams, cwd, environment, sys.path, locale, decimal context, SIGINT handler, root logger) against the run without the agent')
 ASSUMPTIONS = ['expressions are side-effect free; the fault model is seam-level: every injected failure is realisable by a concrete plugin / object / environment',
                'program output = what the program writes through out(); agent log records are not program output',
                'object lifetimes: release at function exit (reference counting, collector off) is compared; release at `del`/rebinding inside a '
@@ -110,7 +112,37 @@ def observe(lo, run, extra):
                 tb_in_agent = True
             tb = tb.tb_next
     return {'result': norm(run.result), 'exc': (type(exc).__name__, norm(exc.args)) if exc is not None else None,
-            'out': norm(list(lo.out)), 'data': norm(lo.ns.get('DATA')), 'tb_in_agent': tb_in_agent, 'extra': extra}
+            'out': norm(list(lo.out)), 'data': norm(lo.ns.get('DATA')), 'tb_in_agent': tb_in_agent, 'extra': extra,
+            'process': process_state()}
+
+
+def process_state():
+    """Process-wide settings an application can observe and that a guest has no business changing."""
+    import decimal
+    import locale
+    import logging
+    import os
+    import random
+    import signal
+    import warnings
+    return {
+        'warnings.filters': [(a, str(m), c.__name__, str(mod), ln) for a, m, c, mod, ln in warnings.filters],
+        'warnings.version': getattr(warnings, '_filters_version', None),
+        'random.state': hash(random.getstate()),
+        'recursionlimit': sys.getrecursionlimit(),
+        'switchinterval': sys.getswitchinterval(),
+        'gc': (gc.isenabled() or True, gc.get_threshold()),
+        'hooks': (sys.excepthook is sys.__excepthook__, sys.getprofile() is None, threading.getprofile() is None,
+                  getattr(sys, 'unraisablehook', None) is getattr(sys, '__unraisablehook__', None)),
+        'std': (sys.stdout is sys.__stdout__, sys.stderr is sys.__stderr__),
+        'cwd': os.getcwd(),
+        'environ': hash(tuple(sorted(os.environ.items()))),
+        'path': tuple(sys.path),
+        'locale': locale.setlocale(locale.LC_ALL),
+        'decimal': str(decimal.getcontext()),
+        'sigint': signal.getsignal(signal.SIGINT) is signal.default_int_handler,
+        'root-logger': (logging.root.level, len(logging.root.handlers), logging.root.disabled, logging.raiseExceptions),
+    }
 
 
 class NoRun:
@@ -332,6 +364,11 @@ def compare(ctx, base, obs, label, case, feat):
             agent_tb = '/agent-exception-in-host' if obs['tb_in_agent'] else ''
             ctx.violation(f'C01/{what}-differs{agent_tb}/{feat}', f'{label}: {what} without agent {base[k]!r}, with agent {obs[k]!r}', case)
             return False
+    if base.get('process') != obs.get('process'):
+        diff = sorted(k for k in base['process'] if base['process'][k] != obs['process'].get(k))
+        ctx.violation(f'C01/process-state-changed/{"+".join(diff)}', f'{label}: after the run the process-wide settings {diff} differ from the run without '
+                      f'the agent: {[(base["process"][k], obs["process"][k]) for k in diff][:2]}', case)
+        return False
     if not obs['trace_after']:
         ctx.violation(f'C01/tracing-switched-off/{feat}', f'{label}: after the program sys.gettrace() is no longer the agent\'s function', case)
         return False
